@@ -500,7 +500,7 @@ def _check_case(ops, impl, skip_lines, stats):
     opno = 0
     stats["lines"] = stats.get("lines", 0) + max(0, min(len(ops), len(impl)) - 1)
     for i in range(1, min(len(ops), len(impl))):
-        f = ops[i].split(" ")
+        f = ops[i].replace("~v|", "|").split(" ")     # `V~v`: typed value sent with VoidVal = true — V counts
         got = impl[i]
         if got == "skip" or got.startswith("hang") or f[0] in ("wait", "within"):
             if got.startswith("hang") and i not in skip_lines:
